@@ -430,3 +430,120 @@ Lemma reopen_example_reads :
   let d := fold_left rstep reopen_example (db_init MPlain []) in
   absd 100 d 1 [107] = Some [7] /\ absd 100 d 1 [108] = Some [2] /\ absd 100 d 1 [109] = Some [3].
 Proof. vm_compute. repeat split. Qed.
+
+(* ======================= version seqnos after recovery ======================= *)
+(* recovery installs versions only through replayed clears, which draw from its own running counter; the restored seqno
+   counter is at least that counter, so the latest version of every recovered tree is selected by reads above the counter *)
+Definition KV (n : N) (kss : list kspace) : Prop := forall ks, In ks kss -> vb n (k_tree ks).
+
+Lemma KV_mono n m kss : n <= m -> KV n kss -> KV m kss.
+Proof. intros L H ks I. eapply vb_mono; [exact L|apply H, I]. Qed.
+
+Lemma replay_items_KV cfg s meta mp items n : forall kss, KV n kss -> KV n (replay_items cfg s kss meta mp items).
+Proof.
+  unfold replay_items. induction items as [|it r IH]; intros kss H; cbn [fold_left]; [exact H|]. apply IH.
+  destruct (alookup (ri_ks it) meta) as [name|]; [|exact H]. destruct (blookup name mp) as [id|]; [|exact H].
+  intros ks I. rewrite in_map_iff in I. destruct I as [k0 [<- I0]]. specialize (H k0 I0).
+  destruct (k_id k0 =? id); [|exact H]. destruct (_ && _); [exact H|]. cbn [with_tree k_tree]. apply vb_append, H.
+Qed.
+
+Lemma replay_clears_KV cfg s meta mp clears : forall sq kss, KV sq kss ->
+  sq <= fst (replay_clears cfg s (sq, kss) meta mp clears) /\
+  KV (fst (replay_clears cfg s (sq, kss) meta mp clears)) (snd (replay_clears cfg s (sq, kss) meta mp clears)).
+Proof.
+  unfold replay_clears. induction clears as [|c r IH]; intros sq kss H; cbn [fold_left]; [split; [cbn; lia|exact H]|].
+  destruct (alookup c meta) as [name|]; [|apply IH, H]. destruct (blookup name mp) as [id|]; [|apply IH, H].
+  destruct (existsb _ kss); [|apply IH, H].
+  destruct (IH (sq + 1) (map (fun k => if k_id k =? id then with_tree k (t_clear sq (k_tree k)) else k) kss)) as [A B].
+  - intros ks I. rewrite in_map_iff in I. destruct I as [k0 [<- I0]]. specialize (H k0 I0).
+    destruct (k_id k0 =? id); [cbn [with_tree k_tree]; apply vb_clear; lia|eapply vb_mono; [|exact H]; lia].
+  - split; [lia|exact B].
+Qed.
+
+Lemma replay_batch_KV cfg meta mp b sq kss : KV sq kss ->
+  sq <= fst (replay_batch cfg meta mp (sq, kss) b) /\
+  KV (fst (replay_batch cfg meta mp (sq, kss) b)) (snd (replay_batch cfg meta mp (sq, kss) b)).
+Proof. intros H. unfold replay_batch. apply replay_clears_KV, replay_items_KV, H. Qed.
+
+Lemma replay_fold_KV cfg meta mp bs : forall sq kss, KV sq kss ->
+  sq <= fst (fold_left (replay_batch cfg meta mp) bs (sq, kss)) /\
+  KV (fst (fold_left (replay_batch cfg meta mp) bs (sq, kss))) (snd (fold_left (replay_batch cfg meta mp) bs (sq, kss))).
+Proof.
+  induction bs as [|b r IH]; intros sq kss H; cbn [fold_left]; [split; [cbn; lia|exact H]|].
+  destruct (replay_batch_KV cfg meta mp b sq kss H) as [A B].
+  destruct (replay_batch cfg meta mp (sq, kss) b) as [sq' kss']. cbn [fst snd] in *.
+  destruct (IH sq' kss' B) as [A' B']. split; [lia|exact B'].
+Qed.
+
+Lemma vb_clear_active n t : vb n t -> vb n (t_clear_active t).
+Proof.
+  intros [A B]. unfold t_clear_active. destruct (mem_of t (v_active (latest t))); [split; assumption|].
+  split; [unfold with_latest; cbn [vers]; destruct (vers t); discriminate|].
+  unfold latest at 1. cbn [vers]. rewrite with_latest_hd by exact A. exact B.
+Qed.
+
+Lemma recover_sealed_one_KV cfg meta mp st bs : KV (fst (fst st)) (snd (fst st)) ->
+  fst (fst st) <= fst (fst (recover_sealed_one cfg meta mp st bs)) /\
+  KV (fst (fst (recover_sealed_one cfg meta mp st bs))) (snd (fst (recover_sealed_one cfg meta mp st bs))).
+Proof.
+  destruct st as [[sq kss] acc]. cbn [fst snd]. intros H. unfold recover_sealed_one.
+  destruct (replay_fold_KV cfg meta mp bs sq kss H) as [A B].
+  destruct (fold_left (replay_batch cfg meta mp) bs (sq, kss)) as [sq1 kss1]. cbn [fst snd] in *.
+  split; [exact A|]. intros ks I. rewrite in_map_iff in I. destruct I as [k0 [<- I0]]. specialize (B k0 I0).
+  destruct (alookup (k_id k0) _); [|exact B].
+  destruct (match t_highest_persisted (k_tree k0) with Some p => _ | None => false end); cbn [with_tree k_tree];
+    [apply vb_clear_active|apply vb_rotate]; exact B.
+Qed.
+
+Lemma recover_sealed_fold_KV cfg meta mp sealed : forall st, KV (fst (fst st)) (snd (fst st)) ->
+  KV (fst (fst (fold_left (recover_sealed_one cfg meta mp) sealed st))) (snd (fst (fold_left (recover_sealed_one cfg meta mp) sealed st))).
+Proof.
+  induction sealed as [|bs r IH]; intros st H; cbn [fold_left]; [exact H|]. apply IH. apply recover_sealed_one_KV, H.
+Qed.
+
+Theorem recover_VB cfg mode filters active sealed meta dirs pn ms :
+  (forall p, In p dirs -> vb 0 (snd p)) -> VB (recover cfg mode filters active sealed meta dirs pn ms).
+Proof.
+  intros D ks Iks. unfold recover in *.
+  match type of Iks with context [fold_left (recover_sealed_one cfg meta ?MP) sealed (0, ?KSS, [])] => set (mp := MP) in *; set (kss0 := KSS) in * end.
+  assert (H0 : KV 0 kss0).
+  { intros k0 I0. unfold kss0 in I0. rewrite in_map_iff in I0. destruct I0 as [p [<- Ip]]. cbn [k_tree]. apply D. apply filter_In in Ip. tauto. }
+  pose proof (recover_sealed_fold_KV cfg meta mp sealed (0, kss0, []) H0) as H1.
+  destruct (fold_left (recover_sealed_one cfg meta mp) sealed (0, kss0, [])) as [[sq1 kss1] sealed'] eqn:R1. cbn [fst snd] in H1.
+  destruct (replay_fold_KV cfg meta mp active sq1 kss1 H1) as [_ H2].
+  destruct (fold_left (replay_batch cfg meta mp) active (sq1, kss1)) as [sq2 kss2] eqn:R2. cbn [fst snd] in H2.
+  cbn [d_kss d_seqno] in *. eapply vb_mono; [|apply H2, Iks].
+  destruct (fold_seqno_ge kss2 sq2) as [G _]. destruct (d_seqno_journal cfg); lia.
+Qed.
+
+Lemma durable_vb t : vb 0 (durable_tree t).
+Proof. split; [discriminate|cbn; lia]. Qed.
+
+Lemma reopen_VB d : VB (do_reopen as_is d).
+Proof.
+  unfold do_reopen. apply recover_VB. intros p Ip. rewrite in_flat_map in Ip. destruct Ip as [id [_ Ip]].
+  destruct (ks_of d id); [|destruct Ip]. destruct Ip as [<-|[]]. apply durable_vb.
+Qed.
+
+Lemma rrun_VB ops : forall d, VB d -> VB (fold_left rstep ops d).
+Proof.
+  induction ops as [|o r IH]; intros d H; cbn [fold_left]; [exact H|]. apply IH.
+  destruct o as [w|]; cbn [rstep]; [apply wstep_VB, H|apply reopen_VB].
+Qed.
+
+(* the model's own read functions, across reopen: in every state a program of writes, maintenance and reopens reaches, a point
+   read / scan at an instant above the counter reads the latest version, where point reads and scans agree *)
+Theorem reads_after_reopen mode filters ops ks k I :
+  let d := fold_left rstep ops (db_init mode filters) in
+  In ks (d_kss d) -> d_seqno d < I ->
+  t_get (k_tree ks) k I = Some (abs I (k_tree ks) k) /\
+  exists sc, t_scan (k_tree ks) I = Some sc /\
+             Sorted.StronglySorted (fun a b => bytes_ltb (fst a) (fst b) = true) sc /\
+             forall k' v, In (k', v) sc <-> abs I (k_tree ks) k' = Some v.
+Proof.
+  intros d Iks L.
+  assert (V : vb (d_seqno d) (k_tree ks)) by (apply (rrun_VB ops _ (VB_init mode filters)), Iks).
+  assert (DI : DInv d) by apply (proj1 (rrun_inv ops (db_init mode filters) (dinv_init mode filters) (JS_init mode filters))).
+  destruct (reads_select_latest (d_seqno d) I (k_tree ks) k V L) as [G S]. split; [exact G|].
+  eexists. split; [exact S|]. split; [apply scan_sorted|]. intros k' v. apply (scan_matches_reads I d ks k' v DI Iks).
+Qed.
